@@ -4526,6 +4526,29 @@ func (t *Terminal) Loop() error {
 						// Goroutine 3 is responsible for cancelling running preview command
 						go func(version int64) {
 							timer := time.NewTimer(previewDelayed)
+							// cancelPreview and killPreview do not block, so a request made
+							// before this goroutine is listening is lost. Make up for it by
+							// checking if a newer request (or quit) is already waiting.
+							ticker := time.NewTicker(previewChunkDelay)
+							cancel := func(immediately bool) {
+								if immediately {
+									util.KillCommand(cmd)
+								} else {
+									// We can immediately kill a long-running preview program
+									// once we started rendering its partial output
+									delay := previewCancelWait
+									if rendered.Get() {
+										delay = 0
+									}
+									timer := time.NewTimer(delay)
+									select {
+									case <-timer.C:
+										util.KillCommand(cmd)
+									case <-finishChan:
+									}
+									timer.Stop()
+								}
+							}
 						Loop:
 							for {
 								select {
@@ -4534,28 +4557,22 @@ func (t *Terminal) Loop() error {
 								case <-timer.C:
 									t.reqBox.Set(reqPreviewDelayed, version)
 								case immediately := <-t.killChan:
-									if immediately {
-										util.KillCommand(cmd)
-									} else {
-										// We can immediately kill a long-running preview program
-										// once we started rendering its partial output
-										delay := previewCancelWait
-										if rendered.Get() {
-											delay = 0
-										}
-										timer := time.NewTimer(delay)
-										select {
-										case <-timer.C:
-											util.KillCommand(cmd)
-										case <-finishChan:
-										}
-										timer.Stop()
-									}
+									cancel(immediately)
 									break Loop
+								case <-ticker.C:
+									if t.previewBox.Peek(reqQuit) {
+										cancel(true)
+										break Loop
+									}
+									if t.previewBox.Peek(reqPreviewEnqueue) {
+										cancel(false)
+										break Loop
+									}
 								case <-finishChan:
 									break Loop
 								}
 							}
+							ticker.Stop()
 							timer.Stop()
 							reapChan <- true
 						}(version)
